@@ -426,6 +426,45 @@ def mac_shape(prog, run, fi):
             run.ob("R-mac-shape", fi.qual, "entry indices", ok, f"normaliser `{astq.src(den, 70)}`: row factor from {sorted(pu)}, column factor from {sorted(pv)} (rows belong to {p0}, columns to {p1})",
                    witness=f"{sorted(pu)},{sorted(pv)}", file=f, node=dv)
         if not vec:
+            # the sets made unit length BEFORE the product (each in its own call of one helper, or in place): |X^H A|^2 is then the MAC -
+            # provided every shape was divided by ITS OWN length
+            copies = {p0: p0, p1: p1}
+            for a_ in ast.walk(fi.node):
+                if isinstance(a_, ast.Assign) and len(a_.targets) == 1 and isinstance(a_.targets[0], ast.Name) and isinstance(a_.value, ast.Name) and a_.value.id in copies \
+                        and a_.targets[0].id not in copies:
+                    copies[a_.targets[0].id] = copies[a_.value.id]
+            for dv in ast.walk(fi.node):
+                if isinstance(dv, ast.BinOp) and isinstance(dv.op, ast.Div) and isinstance(dv.left, ast.Name) and dv.left.id in copies:
+                    kind = _reduction_kind(prog, fi, dv.right)
+                    if kind is not None and dv.left.id in {n_.id for n_ in ast.walk(dv.right) if isinstance(n_, ast.Name)}:
+                        whose = copies[dv.left.id]
+                        vec += 1
+                        run.ob("R-mac-shape", fi.qual, "normalisers are one number per shape", kind[0] == "per-shape",
+                               f"`{astq.src(dv, 60)}` (the set `{whose}` made unit length before the product): {kind[1]}" +
+                               ("" if kind[0] == "per-shape" else f" - every shape of `{whose}` is divided by a number that belongs to the whole set, not to itself"),
+                               witness=kind[1][:80], file=f, node=dv, config=whose)
+            for c_ in ast.walk(fi.node):
+                if not (isinstance(c_, ast.Call) and c_.args and isinstance(c_.args[0], ast.Name) and c_.args[0].id in (p0, p1)):
+                    continue
+                try:
+                    g_ = prog.resolve_call(fi, c_)
+                except Exception:
+                    g_ = None
+                if not isinstance(g_, FuncInfo) or g_.node is fi.node:
+                    continue
+                gp = astq.params_of(g_.node)[0]
+                if not gp:
+                    continue
+                for dv in ast.walk(g_.node):
+                    if isinstance(dv, ast.BinOp) and isinstance(dv.op, ast.Div) and isinstance(dv.left, ast.Name) and dv.left.id == gp[0]:
+                        kind = _reduction_kind(prog, g_, dv.right)
+                        if kind is not None and gp[0] in {n_.id for n_ in ast.walk(dv.right) if isinstance(n_, ast.Name)}:
+                            vec += 1
+                            run.ob("R-mac-shape", fi.qual, "normalisers are one number per shape", kind[0] == "per-shape",
+                                   f"`{astq.src(dv, 60)}` in {g_.node.name} (applied to `{c_.args[0].id}` before the product): {kind[1]}" +
+                                   ("" if kind[0] == "per-shape" else f" - every shape of `{c_.args[0].id}` is divided by a number that belongs to the whole set, not to itself"),
+                                   witness=kind[1][:80], file=f, node=c_, config=c_.args[0].id)
+        if not vec:
             run.ob("R-mac-shape", fi.qual, "entry indices", None, "normalisation (loop `M[i, j] = ...` or outer product of the two norm vectors) not found", file=f)
 
 
